@@ -8,13 +8,17 @@ HARNESSES = [dict(name="cgnat", pkg="./internal/cgnat/", test="TestVerifC15", ti
 MODEL_NEEDS_IMPL = True
 # repaired first; "def:XYZ" = model with the listed recorded defects present
 #   R restoreLocked does not validate   A ReverseIndex.Add appends a duplicate   D duplicate outside addresses kept
-#   S the failure branch of the HA-synced activation releases the blocks but leaves the reverse entries
-# R, A and D are fixed in /repo (285c7b2, 7d1d0b3, 3b1c45d): their variants are no longer tried, a regression is a
-# VIOLATION.  The driver still understands every letter combination.
-VARIANTS = ["repaired", "def:S"]
+#   S failed HA-synced activation leaves reverse entries          (R, A, D, S are fixed in /repo: a regression of
+#                                                                   those is a VIOLATION, their variants are not tried)
+#   V the component keys the pool by inside VRF 0 for every session
+#   X cgnat.Config.Validate accepts two pools that share an outside address
+#   L a dataplane add completing late is committed / rolled back without looking at what happened meanwhile
+# comp cases can need V and/or L, mp cases X; no case needs X together with V or L.
+VARIANTS = ["repaired", "def:L", "def:V", "def:VL", "def:X"]
 DEFECT_NAMES = {"R": "restore-unvalidated", "A": "reverse-add-duplicate", "D": "duplicate-outside-address",
-                "S": "synced-rollback-keeps-reverse-entries"}
-RULE = ("Two kinds of history. pool: <=70 calls of AllocateBlock/GetOrAllocate/ReleaseBlocks/RestoreMapping/"
+                "S": "synced-rollback-keeps-reverse-entries", "V": "inside-vrf-zero",
+                "X": "pool-outside-overlap", "L": "late-add-completion"}
+RULE = ("Three kinds of history. mp: two pools on one PoolManager (outside addresses disjoint, overlapping or equal), cgnat.Config.Validate first, then <=40 pool calls addressed to either pool, dumps with the cross-pool overlap monitor.  comp subscribers come in VRF twins (same inside address in VRF 0, 1, 2) and a share of the activations leaves the dataplane add in flight (L) and completes it later (K ok/failed) in any order relative to the other events.  pool: <=70 calls of AllocateBlock/GetOrAllocate/ReleaseBlocks/RestoreMapping/"
         "RestoreMappingIfAbsent on one PoolManager over <=7 subscribers (two VRFs); comp: <=45 events driven through "
         "the real Component (handleSessionActivate with and without an HA-synced record, handleSessionRelease, "
         "restoreFromOpDB with one persisted mapping in the session-present and the degraded branch), each with a fault "
@@ -176,8 +180,11 @@ def del_pattern(rng):
 def gen_comp_case(rng, nmax):
     clean = rng.random() < 0.35      # one live session per subscriber, no restores, no duplicate addresses
     toks, gp = gen_cfg(rng, allow_dup=not clean)
-    subs = [1, 2, 3, 4, 258, 700][:rng.randint(2, 6)]
-    live = {}          # sid -> k
+    subs = rng.sample([1, 2, 3, 65537, 131073, 65538, 258, 700], rng.randint(2, 6))
+    if clean:
+        subs = [k for k in subs if k < 65536] or [1]
+    live = {}
+    inflight = []          # sid -> k
     nxt = [1]
     ops = []
     sw = sweep_ops(gp)
@@ -215,7 +222,11 @@ def gen_comp_case(rng, nmax):
                 k = live[sid]
             else:
                 sid = new_sid()
-            ev("A:%d:%d:%d" % (sid, k, 0 if rng.random() < 0.15 else 1))
+            if rng.random() < 0.3:
+                ev("L:%d:%d" % (sid, k))
+                inflight.append(sid)
+            else:
+                ev("A:%d:%d:%d" % (sid, k, 0 if rng.random() < 0.15 else 1))
             live.setdefault(sid, k)
         elif r < 0.52:
             if live and rng.random() < 0.85:
@@ -250,18 +261,63 @@ def gen_comp_case(rng, nmax):
             ev("S:%d:%d:%d:%d:%d:%d:%d" % (sid, k, mk, ip, s, e, ok))
             if ok:
                 live.setdefault(sid, k)
-        elif r < 0.90:
+        elif r < 0.88:
             ops.append("d")
+        elif r < 0.94 and inflight:
+            sid = inflight.pop(rng.randrange(len(inflight)))
+            ev("K:%d:%d" % (sid, 0 if rng.random() < 0.3 else 1))
         else:
             ev("C")
+    while inflight:
+        ev("K:%d:%d" % (inflight.pop(rng.randrange(len(inflight))), 0 if rng.random() < 0.3 else 1))
     ev("C")
     ops.append("d")
     return "comp " + " ".join(toks) + " | " + " ".join(ops)
 
 
+def gen_mp_case(rng, nmax):
+    geoms = [("1024-1151", 64), ("1024-1151", 32), ("1024-1151", 16), ("2000-2259", 4)]
+
+    def one(outs):
+        g = rng.choice(geoms)
+        return ["bs=%d" % g[1], "ratio=0", "range=%s" % g[0], "max=%d" % rng.choice([1, 2, 3]),
+                "pooling=%d" % rng.choice([0, 1, 2]), "out=%s" % ",".join(outs), "excl=-"], g
+    shape = rng.choice(["disjoint", "disjoint", "equal", "literal-in-prefix", "prefix-in-prefix", "adjacent"])
+    o1, o2 = {"disjoint": ([str(BASE + 1)], [str(BASE + 2), str(BASE + 9)]),
+              "equal": ([str(BASE + 1)], [str(BASE + 1)]),
+              "literal-in-prefix": (["%d/30" % BASE], [str(BASE + 2)]),
+              "prefix-in-prefix": (["%d/31" % (BASE + 2)], ["%d/30" % BASE, str(BASE + 9)]),
+              "adjacent": (["%d/31" % BASE], ["%d/31" % (BASE + 2)])}[shape]
+    if rng.random() < 0.5:
+        o1, o2 = o2, o1
+    t1, g1 = one(o1)
+    t2, g2 = one(o2)
+    ops = ["v"]
+    for _ in range(rng.randint(4, nmax)):
+        r = rng.random()
+        p = rng.choice("12")
+        k = rng.choice([1, 2, 3, 4])
+        if r < 0.5:
+            ops.append("a:%s:%d" % (p, k))
+        elif r < 0.62:
+            ops.append("g:%s:%d" % (p, k))
+        elif r < 0.77:
+            ops.append("r:%s:%d" % (p, k))
+        elif r < 0.87:
+            g = g1 if p == "1" else g2
+            ps_, bs_ = int(g[0].split("-")[0]), g[1]
+            ip = rng.choice([BASE + 1, BASE + 2, BASE + 3])
+            st = ps_ + bs_ * rng.randrange(0, 3)
+            ops.append("%s:%s:%d:%d:%d:%d" % (rng.choice("RI"), p, k, ip, st, st + bs_ - 1))
+        else:
+            ops.append("d")
+    ops.append("d")
+    return "mp " + " ".join(t1) + " || " + " ".join(t2) + " | " + " ".join(ops)
+
+
 def gen_cases(rng, tier, budget):
-    npool = (budget or 450) if tier == "quick" else (budget or 5000)
-    ncomp = (budget or 350) if tier == "quick" else (budget or 4000)
+    npool = (budget or 360) if tier == "quick" else (budget or 4000)
+    ncomp = (budget or 270) if tier == "quick" else (budget or 3000)
     cases = []
     # fill-and-drain histories: every block of a small pool is handed out, released and handed out again
     for bs, mx, pooling, outs in [(16, 3, 2, "%d,%d" % (BASE + 1, BASE + 2)), (32, 2, 1, "%d/31" % BASE), (64, 1, 0, str(BASE + 3)),
@@ -288,6 +344,8 @@ def gen_cases(rng, tier, budget):
     cases.append("pool bs=0 ratio=1 range=0-65535 max=1 pooling=1 out=%d excl=- | a:1 d" % (BASE + 1))
     for _ in range(npool):
         cases.append(gen_pool_case(rng, 70 if tier == "thorough" or rng.random() < 0.3 else 30))
+    for _ in range(100 if tier == "quick" else 1200):
+        cases.append(gen_mp_case(rng, 40))
     for _ in range(ncomp):
         cases.append(gen_comp_case(rng, 30 if tier == "thorough" or rng.random() < 0.3 else 14))
     return cases
@@ -299,7 +357,7 @@ def split_ops(case):
     return parts[0].split(), (parts[1].split() if len(parts) == 2 else [])
 
 
-FLAG_RE = re.compile(r"flags=(\S+)")
+FLAG_RE = re.compile(r"flags=([A-Za-z,]+)")
 
 
 def prop_flags(line):
@@ -366,7 +424,7 @@ def closest_variant(case, impl, model):
 def classify(case, impl, model):
     v, ref = closest_variant(case, impl, model)
     tag = "" if v == "repaired" else " [compared with model variant %s, i.e. besides the recorded defect(s) %s]" % (
-        v, "+".join(DEFECT_NAMES[c] for c in ("RADS" if v == "defective" else v[4:])))
+        v, "+".join(DEFECT_NAMES[c] for c in v[4:]))
     k, txt = classify1(case, impl, ref)
     return k, txt + tag
 
@@ -403,10 +461,9 @@ def classify1(case, impl, model):
 
 
 def signature(case, impl, models):
-    for v in VARIANTS[1:]:
+    for v in sorted(VARIANTS[1:], key=len):
         if models.get(v) == impl:
-            letters = "RADS" if v == "defective" else v[4:]
-            return "+".join(DEFECT_NAMES[c] for c in letters)
+            return "+".join(DEFECT_NAMES[c] for c in v[4:])
     return None
 
 
@@ -444,13 +501,13 @@ def describe(case, impl, model):
 
 
 def distribution(cases, impl):
-    d = {"pool_cases": 0, "comp_cases": 0, "ops": {}, "alloc_ok": 0, "alloc_old": 0, "err_limit": 0, "err_nofree": 0,
+    d = {"pool_cases": 0, "comp_cases": 0, "mp_cases": 0, "mp_rejected": 0, "ops": {}, "alloc_ok": 0, "alloc_old": 0, "err_limit": 0, "err_nofree": 0,
          "err_allocfail": 0, "restore_ok": 0, "restore_err": 0, "dp_calls": 0, "panics": 0, "impl_flags": {},
          "blocks_per_addr": {}, "history_len": {"<=10": 0, "11-30": 0, "31-80": 0, ">80": 0},
          "sweep_runs": 0, "max_subscribers_in_dump": 0}
     for c, o in zip(cases, impl):
         cfg, ops = split_ops(c)
-        d["pool_cases" if cfg[0] == "pool" else "comp_cases"] += 1
+        d[{"pool": "pool_cases", "comp": "comp_cases"}.get(cfg[0], "mp_cases")] += 1
         n = len(ops)
         d["history_len"]["<=10" if n <= 10 else "11-30" if n <= 30 else "31-80" if n <= 80 else ">80"] += 1
         outs = (o or "").split(" ; ")
@@ -475,11 +532,13 @@ def distribution(cases, impl):
                 s = r.split(" ")[0][5:]
                 if s != "-":
                     d["max_subscribers_in_dump"] = max(d["max_subscribers_in_dump"], s.count(";") + 1)
+        if (o or "") == "invalid":
+            d["mp_rejected"] += 1
         if "panic" in (o or ""):
             d["panics"] += 1
         for f in prop_flags(o or ""):
             d["impl_flags"][f] = d["impl_flags"].get(f, 0) + 1
-        g = dict(t.split("=", 1) for t in cfg[1:])
+        g = dict(t.split("=", 1) for t in cfg[1:] if "=" in t and cfg[0] != "mp")
         try:
             rg = g["range"]
             ps, pe = (1024, 65535) if rg == "def" else tuple(int(x) for x in rg.split("-"))
